@@ -353,7 +353,7 @@ func (x *Exec) heap(st *State, name, sort string) string {
 func (x *Exec) birthAxiom(base, term, sort, bound string) string {
 	switch {
 	case sort == "(Array Int Slice)":
-		return fmt.Sprintf("(forall ((r Int)) (! (and (< (s_arr (select %s r)) %s) (<= 0 (s_off (select %s r))) (<= 0 (s_len (select %s r))) (<= (s_len (select %s r)) (s_cap (select %s r)))) :pattern ((select %s r))))", term, bound, term, term, term, term, term)
+		return fmt.Sprintf("(forall ((r Int)) (! (and (< (s_arr (select %s r)) %s) (= 0 (s_off (select %s r))) (<= 0 (s_len (select %s r))) (<= (s_len (select %s r)) (s_cap (select %s r)))) :pattern ((select %s r))))", term, bound, term, term, term, term, term)
 	case sort == "(Array Int (Array Int Int))" && x.elemRange[base] != "":
 		return fmt.Sprintf("(forall ((a Int) (i Int)) (! (and (<= 0 (select (select %s a) i)) (<= (select (select %s a) i) %s)) :pattern ((select (select %s a) i))))", term, term, x.elemRange[base], term)
 	case sort == "(Array Int Int)" && x.refHeaps[base]:
@@ -514,6 +514,12 @@ func (x *Exec) rootWrite(st *State, p *Pointer, term string, v *Value) {
 	case PField:
 		hn, hs := x.fieldHeapName(p.Obj, p.Field)
 		h := x.heap(st, hn, hs)
+		if hs == "(Array Int Slice)" && len(p.Path) == 0 {
+			_, off, _, _ := x.sliceParts(term)
+			if off != "0" {
+				x.oblige(st, "model", "field_slice_offset0@"+hn, x.safetyProps(), eq(off, "0"), "?", "modelling discipline: a slice stored in a struct field has offset 0")
+			}
+		}
 		x.setHeap(st, hn, hs, app("store", h, p.Ref, term))
 	case PElem:
 		var el types.Type
@@ -596,9 +602,25 @@ func (x *Exec) load(st *State, p *Pointer) *Value {
 		t = x.project(t, s)
 	}
 	v := &Value{T: t, Typ: p.Typ}
+	if p.Kind == PField && len(p.Path) == 0 {
+		v.T = x.normFieldSlice(v.T, p.Typ)
+	}
 	x.assumeTypeInv(st, v)
 	x.assumeAllocated(st, v)
 	return v
+}
+
+// normFieldSlice: slices stored in struct fields always have offset 0 (a modelling
+// discipline that is checked at every store of a slice into a field), so reads
+// can use the literal 0, which keeps index terms free of symbolic offsets.
+func (x *Exec) normFieldSlice(t string, typ types.Type) string {
+	if _, ok := typ.Underlying().(*types.Slice); !ok {
+		return t
+	}
+	if strings.HasPrefix(t, "(mk_slice ") {
+		return t
+	}
+	return app("mk_slice", app("s_arr", t), "0", app("s_len", t), app("s_cap", t))
 }
 
 func (x *Exec) store(st *State, p *Pointer, v *Value) {
@@ -1342,7 +1364,33 @@ func (x *Exec) assumeGlobalInvs(st *State) {
 		return
 	}
 	env := &Env{x: x, st: st, old: st, vars: map[string]*Value{}}
+	var reads map[string]bool
+	if x.Eff != nil && x.fn != nil {
+		reads = map[string]bool{}
+		for k := range x.Eff.GlobalsRead(x.fn) {
+			reads[k] = true
+		}
+		if x.fc != nil {
+			for _, cl := range append(append([]*Clause{}, x.fc.Requires...), x.fc.Ensures...) {
+				for _, id := range identsOf(cl.Expr) {
+					reads[id] = true
+				}
+			}
+		}
+	}
 	for _, gi := range x.C.GlobalInvs {
+		// only facts about globals this function (or its callees) can read
+		if reads != nil {
+			rel := false
+			for _, id := range identsOf(gi.Expr) {
+				if reads[id] {
+					rel = true
+				}
+			}
+			if !rel {
+				continue
+			}
+		}
 		st.assume(x.evalBool(env, gi.Expr))
 	}
 }
@@ -1516,4 +1564,48 @@ func (x *Exec) frameGoals(st *State, env *Env, fc *FuncContract, only map[string
 		outNames = append(outNames, hn)
 	}
 	return outNames, goals
+}
+
+// identsOf lists the identifiers occurring in a contract expression.
+func identsOf(e CExpr) []string {
+	var out []string
+	var walk func(e CExpr)
+	walk = func(e CExpr) {
+		switch v := e.(type) {
+		case *CIdent:
+			out = append(out, v.Name)
+		case *CBin:
+			walk(v.X)
+			walk(v.Y)
+		case *CUn:
+			walk(v.X)
+		case *CSel:
+			walk(v.X)
+		case *CIndex:
+			walk(v.X)
+			walk(v.I)
+		case *CSlice:
+			walk(v.X)
+			if v.Lo != nil {
+				walk(v.Lo)
+			}
+			if v.Hi != nil {
+				walk(v.Hi)
+			}
+		case *CCall:
+			for _, a := range v.Args {
+				walk(a)
+			}
+		case *CQuant:
+			walk(v.Body)
+		case *CCond:
+			walk(v.C)
+			walk(v.A)
+			walk(v.B)
+		case *CTypeAssert:
+			walk(v.X)
+		}
+	}
+	walk(e)
+	return out
 }
